@@ -8,7 +8,29 @@ import (
 
 var mapsOnly = instr.Opts{Maps: true}
 
+var full = instr.Opts{Maps: true, Yields: true, Sync: true, Time: true, Access: true}
+var yieldsAndClock = instr.Opts{Yields: true, Time: true}
+
 var all = map[string]*runner.Spec{
+	"C14": {
+		ID: "C14", Harness: "c14", Level: "exploration",
+		Rule: "one run = one seeded workload (population mode lazy via AddValue or precomputed via an in-process serializer archive loaded by licenseclassifier.New; 1..6 known values: small real license texts, synthetic 5..60-word texts, derived near-duplicates; 1..4 queries; 2..6 caller tasks with 1..4 operations each from MultipleMatch/NearestMatch/AddValue incl. duplicate keys) executed under one seeded scheduler (random / sticky / PCT, yield budgets, optional clock stalls) that also schedules the goroutines the library starts itself. Non-trivial: at least 3 tasks and at least 2 context switches; distinct = distinct hash of the context-switch sequence combined with the workload.",
+		Assume: []string{
+			"instrumented synchronisation is modelled by simrt (Mutex, RWMutex with writer preference, WaitGroup); synchronisation inside uninstrumented packages (regexp's sync.Pool, log's mutex) creates no happens-before edge by design",
+			"accesses inside uninstrumented code (container/heap, sort, regexp, gob) are invisible to the race checker: possible misses, never false alarms",
+			"sequential reference values are computed in a separate simulation with the run-to-block schedule",
+			"porcupine verdict Unknown (timeout) is counted as inconclusive, never reported",
+		},
+		QuickRuns: 4000, ThorRuns: 120000, QuickCap: 420, ThorCap: 2400,
+		Instrument: func(sc *runner.Scratch) error {
+			_, err := sc.Instrument(runner.InstrumentPlan{
+				V1: map[string]instr.Opts{"": full, "stringclassifier": full, "stringclassifier/internal/pq": full, "stringclassifier/internal/sets": full,
+					"stringclassifier/searchset": full, "stringclassifier/searchset/tokenizer": full, "serializer": full},
+				GoDiff: &yieldsAndClock,
+			})
+			return err
+		},
+	},
 	"C04": {
 		ID: "C04", Harness: "c04", Level: "exploration",
 		Rule: "one run = one seeded world (5..60 corpus documents biased to popular licenses, occasionally all 431; threshold from {0.7,0.75,0.8,0.9,1.0}; 1..3 classifier instances: canonical insertion order, permuted insertion order, permuted plus 1..6 unrelated out-of-vocabulary documents) and one seeded history of 5..40 operations (Match, MatchFrom over a fragmenting reader, Normalize, SetTraceConfiguration incl. nil, switch instance) over 1..4 generated inputs, executed with the iteration order of every map range in package classifier drawn from the choice stream (7 of 8 runs; the rest use sorted order). A run is non-trivial if at least one input was observed at least twice (so a comparison happened); distinct = distinct choice vector.",
